@@ -711,6 +711,13 @@ func (m *Mirror) handleFuturePrevoteProofs(
 		)
 	}
 
+	if len(curPrevotesSparse.PubKeyHash) > 0 &&
+		!bytes.Equal(curPrevotesSparse.PubKeyHash, []byte(p.PubKeyHash)) {
+		// Votes for this future round are already stored under another key set.
+		// Signatures of two key sets cannot share one proof.
+		return tmconsensus.HandleVoteProofsBadPubKeyHash
+	}
+
 	// Convert the prevotes we just loaded from storage,
 	// into a set of full proofs, so that we can merge in the new sparse proofs.
 	fullMap, err := curPrevotesSparse.ToFullPrevoteProofMap(
@@ -1071,6 +1078,13 @@ func (m *Mirror) handleFuturePrecommitProofs(
 		curPrecommitsSparse.BlockSignatures = make(
 			map[string][]gcrypto.SparseSignature, len(p.Proofs),
 		)
+	}
+
+	if len(curPrecommitsSparse.PubKeyHash) > 0 &&
+		!bytes.Equal(curPrecommitsSparse.PubKeyHash, []byte(p.PubKeyHash)) {
+		// Votes for this future round are already stored under another key set.
+		// Signatures of two key sets cannot share one proof.
+		return tmconsensus.HandleVoteProofsBadPubKeyHash
 	}
 
 	// Convert the precommits we just loaded from storage,
